@@ -405,12 +405,12 @@ Process::Process()
 Process::~Process()
 {
 	if (_ready) {
-		close(_pipe_in[0]);
-		close(_pipe_out[0]);
-		close(_pipe_err[0]);
-		close(_pipe_in[1]);
-		close(_pipe_out[1]);
-		close(_pipe_err[1]);
+		for (int i = 0; i < 2; i++)
+		{
+			if (_pipe_in[i] >= 0) close(_pipe_in[i]);
+			if (_pipe_out[i] >= 0) close(_pipe_out[i]);
+			if (_pipe_err[i] >= 0) close(_pipe_err[i]);
+		}
 	}
 }
 
@@ -538,6 +538,7 @@ void Process::run(const String& command, const Array<String>& args)
 			close(_pipe_in[0]);
 			close(_pipe_out[1]);
 			close(_pipe_err[1]);
+			_pipe_in[0] = _pipe_out[1] = _pipe_err[1] = -1; // not ours any more: the destructor must not close these numbers again
 		}
 	}
 }
